@@ -3,7 +3,7 @@
    seed_table.py <wave>      (wave 1: seeds 1,2; wave 2: seeds 3,4; wave 3: seeds 5,6)"""
 import glob, json, os, sys
 wave = int(sys.argv[1])
-ns = {1: (1, 2), 2: (3, 4), 3: (5, 6)}[wave]
+ns = (2 * wave - 1, 2 * wave)
 def clip(s, n):
     s = " ".join((s or "").split()).replace("|", "/")
     return s if len(s) <= n else s[: n - 1] + "…"
